@@ -231,6 +231,10 @@ def replay_contract(model, function, requires, ensures, ghost_code="", call="aut
         if allowed:
             print("the contract allows this exception on this input")
             return 0
+        if not exc:
+            print("the contract does not specify exceptional behaviour: an exception of the real function on a "
+                  "solver-chosen input is not conclusive (an unstated precondition of a library call may be violated)")
+            return 0
         if STUBS_USED:
             print("arguments contain stand-in objects (%s): an exception of the real function is not conclusive"
                   % ", ".join(sorted(set(STUBS_USED))))
